@@ -229,3 +229,85 @@ Fixpoint s_run (cap : Z) (buf : list Z) (ops : list sop) : option (list Z * list
       end
     end
   end.
+
+(* ------------------------------------------------------------------ *)
+(* FakeOStream over ThreadedBufferedStream (shard's outputs): the producer side.
+   State = bytes in the leased block; result = blocks handed to the writer thread
+   (Lease::SuccessNext with Size() = bytes).  A block of size 0 is the POISON that ends
+   the writer thread, so handing over an empty block before the destructor would lose data.
+   The hand-off itself (semaphores, ring of kBlocks blocks) is C16's subject. *)
+
+Definition t_spill (buf : list Z) : list Z * list (list Z) :=
+  match buf with [] => ([], []) | _ :: _ => ([], [buf]) end.
+
+(* while (current_ + length > end_) { memcpy(current_, data, end_ - current_); data += ..; length -= ..;
+                                      current_ = end_; SpillBuffer(); }
+   memcpy(current_, data, length); current_ += length; *)
+Fixpoint t_write (fuel : nat) (cap : Z) (buf data : list Z) : option (list Z * list (list Z)) :=
+  if zlen buf + zlen data >? cap then
+    match fuel with
+    | O => None
+    | S f =>
+      let k := Z.to_nat (cap - zlen buf) in
+      let '(b, w) := t_spill (buf ++ firstn k data) in
+      match t_write f cap b (skipn k data) with
+      | None => None
+      | Some (b', w') => Some (b', w ++ w')
+      end
+    end
+  else Some (buf ++ data, []).
+
+Inductive tres := TOk (buf : list Z) (blocks : list (list Z)) | TOutOfBounds | TFuel.
+
+Definition t_step (cap : Z) (buf : list Z) (o : sop) : tres :=
+  match o with
+  | SWrite data =>
+    match t_write (S (S (length data))) cap buf data with
+    | None => TFuel
+    | Some (b, w) => TOk b w
+    end
+  | SPut c =>
+    let '(b, w) := if zlen buf + 1 >? cap then t_spill buf else (buf, []) in
+    if zlen b + 1 <=? cap then TOk (b ++ [c]) w else TOutOfBounds
+  | SNumber kbytes f =>
+    let '(b, w) := if zlen buf + kbytes >? cap then t_spill buf else (buf, []) in
+    if (zlen b + f_foot f <=? cap) && (zlen b + zlen (f_out f) <=? cap) then TOk (b ++ f_out f) w else TOutOfBounds
+  | SFlush => TOk buf []           (* "No flush." *)
+  end.
+
+Fixpoint t_run (cap : Z) (buf : list Z) (ops : list sop) : tres :=
+  match ops with
+  | [] => TOk buf []
+  | o :: r =>
+    match t_step cap buf o with
+    | TOk b w =>
+      match t_run cap b r with
+      | TOk b' w' => TOk b' (w ++ w')
+      | e => e
+      end
+    | e => e
+    end
+  end.
+
+(* ~ThreadedBufferedStream(): SpillBuffer(); then the poison block *)
+Definition t_destroy (buf : list Z) : list (list Z) := snd (t_spill buf).
+
+Definition block_cap : Z := Z.max block_queue_min kToStringMaxBytes.
+
+(* ------------------------------------------------------------------ *)
+(* FakeOStream over util::StringStream (exception messages): Ensure(amount) resizes the string by
+   [amount], the formatter stores into that room, AdvanceTo shrinks the string to the returned end.
+   None = a store beyond the room that Ensure made. *)
+Definition ss_step (str : list Z) (o : sop) : option (list Z) :=
+  match o with
+  | SWrite data => Some (str ++ data)
+  | SPut c => Some (str ++ [c])
+  | SNumber kbytes f => if (f_foot f <=? kbytes) && (zlen (f_out f) <=? kbytes) then Some (str ++ f_out f) else None
+  | SFlush => Some str
+  end.
+
+Fixpoint ss_run (str : list Z) (ops : list sop) : option (list Z) :=
+  match ops with
+  | [] => Some str
+  | o :: r => match ss_step str o with None => None | Some s => ss_run s r end
+  end.
